@@ -46,6 +46,29 @@ ITEMS = [("call",), ("callk", 1), ("callk", 2), ("ret",),
 # sees the database as modified, so there only abnormal endings (panic, hang) are reported
 CL_UPD = [("ret",), ("az", 1), ("aa", 1), ("retk", 1), ("retk", 2), ("rall",), ("rallk", 2), ("abol",)]
 DBS = [[], [1], [1, 2], [1, 2, 3], [2, 1, 2]]
+
+# shape M ("mixed"): facts d(Key, V) whose first argument is a, b or a variable, so that the predicate
+# is split into several index blocks (an unindexed clause between indexed ones); V identifies the
+# clause (initial clauses 1..n, the clause asserted by the operation at position i has V = 5+i).
+# Calls have the first argument bound to a, b, c (c: no such key) or unbound.
+MKEYS = ["a", "b", None]
+M_ITEMS = ([("mcall", k) for k in ("a", "b", "c", None)] + [("maz", k) for k in ("a", "b", "c", None)]
+           + [("maa", k) for k in ("a", "c", None)] + [("mret", k) for k in ("a", None)] + [("cut",)])
+
+
+def mixed_dbs(tier):
+    out = []
+    for n in (2, 3, 4):
+        for t in itertools.product(MKEYS, repeat=n):
+            if n < 4:
+                ok = any(k is None for k in t) and any(k is not None for k in t)
+            else:
+                # length 4 (thorough only): a variable-first-argument clause strictly between constants
+                ok = tier == "thorough" and any(t[j] is None and any(x is not None for x in t[:j])
+                                                and any(x is not None for x in t[j + 1:]) for j in range(1, 3))
+            if ok:
+                out.append(list(t))
+    return out
 SHAPES = ["A", "B", "C"]
 CAP = 64
 CPU_LIMIT = 0.4    # seconds of worker CPU time for one history (a normal one needs a few ms)
@@ -78,6 +101,8 @@ def shards(tier):
             for first in range(len(ITEMS)):
                 sh.append((shape, dbi, first))
             sh.append((shape, dbi, "cl"))
+    for dbi in range(len(mixed_dbs(tier))):
+        sh.append(("M", dbi, "all"))
     return sh
 
 
@@ -97,7 +122,10 @@ def model(shape, db0, items, dead_yields=True, rall_creates=False):
     'iterator<update' pairs executed while the iterator still had untried alternatives),
     emptied (operation kind executed first after the predicate lost its last clause under a
     live iterator, or None), used (which of the two open choices were consulted))"""
-    clauses = [[k, True] for k in db0]   # [value, alive]; list order = database order
+    if shape == "M":
+        clauses = [[i + 1, True, k] for i, k in enumerate(db0)]   # [V, alive, key]
+    else:
+        clauses = [[k, True] for k in db0]   # [value, alive]; list order = database order
     st = {"exists": True, "dy": False, "rc": False, "emptied": None}
     inter = set()
     n = len(items)
@@ -127,6 +155,53 @@ def model(shape, db0, items, dead_yields=True, rall_creates=False):
             solve(i + 1)
             open_iters[:] = saved
             return True
+        if k in ("mcall", "mret"):
+            key = it[1]
+            kind = ("call" if key is None else "callk") if k == "mcall" else ("ret" if key is None else "retk")
+            if not st["exists"]:
+                if k == "mcall":
+                    raise PErr()
+                return False
+            removing = k == "mret"
+            # a call walks every clause block (clauses whose key does not unify are untried alternatives
+            # without solutions); retract/1 works on the list of matching clauses it collected at call time
+            snap = [c for c in clauses if c[1] and (not removing or key is None or c[2] is None or c[2] == key)]
+            for j, c in enumerate(snap):
+                rem = j < len(snap) - 1
+                if not (key is None or c[2] is None or c[2] == key):
+                    continue
+                if removing:
+                    if c[1]:
+                        if rem:
+                            open_iters.append(kind)
+                        note(kind)
+                        if rem:
+                            open_iters.pop()
+                        c[1] = False
+                    else:
+                        st["dy"] = True
+                        if not dead_yields:
+                            continue
+                if rem:
+                    open_iters.append(kind)
+                vals[i] = c[0]
+                r = solve(i + 1)
+                if rem:
+                    open_iters.pop()
+                if r:
+                    vals[i] = None
+                    return True
+            vals[i] = None
+            return False
+        if k in ("maz", "maa"):
+            note(k[1:])
+            st["exists"] = True
+            rec = [5 + i, True, it[1]]
+            if k == "maz":
+                clauses.append(rec)
+            else:
+                clauses.insert(0, rec)
+            return solve(i + 1)
         if k in ("call", "callk", "clause", "ret", "retk"):
             if not st["exists"]:
                 if k in ("call", "callk"):
@@ -203,7 +278,13 @@ def model(shape, db0, items, dead_yields=True, rall_creates=False):
 # ---------------------------------------------------------------------------
 # text
 
+def mkey(k):
+    return "_" if k is None else k
+
+
 def fact_text(shape, p, k, v):
+    if shape == "M":
+        return "%s(%s,%d)" % (p, mkey(k[0]), k[1])
     if shape == "A":
         return "%s(%d)" % (p, k)
     if shape == "B":
@@ -216,6 +297,16 @@ def item_text(shape, p, it, i):
     x = "X%d" % i
     if k == "cut":
         return "!"
+    if k == "mcall":
+        return "%s(%s,%s)" % (p, mkey(it[1]), x)
+    if k == "mret":
+        return "retract(%s(%s,%s))" % (p, mkey(it[1]), x)
+    if k in ("maz", "maa"):
+        return "assert%s(%s(%s,%d))" % (k[2], p, mkey(it[1]), 5 + i)
+    if shape == "M" and k == "clause":
+        return "clause(%s(_,%s),true)" % (p, x)
+    if shape == "M" and k == "call":
+        return "%s(_,%s)" % (p, x)
     if k == "call":
         return "%s(%s)" % (p, x) if shape != "B" else "%s(_,%s)" % (p, x)
     if k == "callk":
@@ -248,7 +339,8 @@ def command_for(shape, p, db0, items):
     """one driver command: [build the initial database, the history, clause/2 listing, final call]"""
     gs = []
     if db0:
-        gs.append(", ".join("assertz(%s)" % fact_text(shape, p, k, "S%d" % j) for j, k in enumerate(db0)))
+        gs.append(", ".join("assertz(%s)" % fact_text(shape, p, (k, j + 1) if shape == "M" else k, "S%d" % j)
+                            for j, k in enumerate(db0)))
     else:
         gs.append("true")
     gs.append(", ".join(item_text(shape, p, it, i) for i, it in enumerate(items)))
@@ -275,7 +367,7 @@ def observe(x, items):
         status = "exc" if (isinstance(f, tuple) and f[0] == "existence_error") else "exc:" + px.formal_sig(f)
     sols = []
     for s in q.sols:
-        sols.append(tuple((s.get("X%d" % i) if it[0] in ("call", "clause", "ret") else None)
+        sols.append(tuple((s.get("X%d" % i) if it[0] in ("call", "clause", "ret", "mcall", "mret") else None)
                           for i, it in enumerate(items)))
     lst = rs[2]
     listing = [s.get("X99") for s in lst.sols] if lst.status == "done" else "status:%s" % lst.status
@@ -405,7 +497,7 @@ def rpc_cpu(w, req, cpu_limit=CPU_LIMIT, wall_limit=60.0):
 def execute(w, shape, db0, hs):
     """runs the histories, each on a fresh predicate and as its own request (so that a panic or
     hang cannot disturb another history); -> raw answers"""
-    ar = 2 if shape == "B" else 1
+    ar = 2 if shape in ("B", "M") else 1
     out = []
     keep = [c for c in w.setup_consults if not c[0].startswith(":- dynamic(h")]
     for group in px.chunked(hs, 150):
@@ -448,7 +540,8 @@ def record(acc, states, shape, db0, items, x):
 def run_shard(w, shard, tier):
     acc = px.ShardAcc()
     shape, dbi, first = shard
-    db0 = DBS[dbi]
+    db0 = mixed_dbs(tier)[dbi] if shape == "M" else DBS[dbi]
+    alphabet = M_ITEMS if shape == "M" else ITEMS
     w.new_machine()
     states = set()
     if first == "cl":
@@ -457,7 +550,7 @@ def run_shard(w, shard, tier):
             record(acc, states, shape, db0, items, x)
     else:
         top = nmax(tier, shape, dbi)
-        level = [[ITEMS[first]]]
+        level = [[it] for it in M_ITEMS] if shape == "M" else [[ITEMS[first]]]
         for ln in range(1, top + 1):
             nxt = []
             for part in px.chunked(level, 3000):
@@ -467,7 +560,7 @@ def run_shard(w, shard, tier):
                         acc.extra["not_extended_after_abnormal"] += 1
                     elif ln < top:
                         nxt.append(items)
-            level = [h + [it] for h in nxt for it in ITEMS]
+            level = [h + [it] for h in nxt for it in alphabet]
     acc.states = len(states)
     return acc.result()
 
